@@ -478,6 +478,73 @@ func c01(c *Ctx) {
 				waitCall = call
 			}
 		}
+		// the aggregator's own map (the argument of the ProcessFunc) is handed to the backends inside the callback and
+		// nowhere else: anything kept from it (a reference, or a copy that shares its value slices / sets) would be
+		// read after Reset truncated and re-filled those slices
+		nPF := 0
+		for _, g := range WithAnon(fd) {
+			for _, call := range callsIn(g) {
+				cc := call.Common()
+				if !cc.IsInvoke() || cc.Method.Name() != "Process" || !typeIs(cc.Value.Type(), "pkg/statsd", "Aggregator") || len(cc.Args) != 1 {
+					continue
+				}
+				var pf *ssa.Function
+				switch x := stripConvVal(cc.Args[0]).(type) {
+				case *ssa.MakeClosure:
+					pf, _ = x.Fn.(*ssa.Function)
+				case *ssa.Function:
+					pf = x
+				}
+				if pf == nil || len(pf.Params) != 1 {
+					r.Fail("flushData:process-callback", call.Pos(), "the function handed to Aggregator.Process is not a literal or function of this package")
+					continue
+				}
+				nPF++
+				m := pf.Params[0]
+				holders := []ssa.Value{m}
+				for _, ref := range referrers(m) {
+					if st, ok := ref.(*ssa.Store); ok && st.Val == ssa.Value(m) {
+						if al, isAl := st.Addr.(*ssa.Alloc); isAl {
+							for _, r2 := range referrers(al) {
+								if ld, ok := r2.(*ssa.UnOp); ok {
+									holders = append(holders, ld)
+								}
+							}
+						}
+					}
+				}
+				bad := ""
+				for _, h := range holders {
+					for _, ref := range referrers(h) {
+						switch x := ref.(type) {
+						case *ssa.Store:
+							if x.Val == h {
+								if _, isAl := x.Addr.(*ssa.Alloc); !isAl {
+									bad = "stored to " + pathOf(x.Addr)
+								}
+							}
+						case *ssa.DebugRef:
+						case *ssa.FieldAddr:
+							if f := fieldName(x.X.Type(), x.Field); f != "Forwarded" {
+								bad = "field " + f + " of the aggregator's map is accessed outside a backend"
+							}
+						case ssa.CallInstruction:
+							cal := staticCallee(x)
+							if cal == nil || cal.Name() != "sendMetricsAsync" {
+								bad = "passed to " + shortCallee(x)
+							}
+							if _, isGo := x.(*ssa.Go); isGo {
+								bad = "handed to a goroutine"
+							}
+						default:
+							bad = fmt.Sprintf("used by %T", ref)
+						}
+					}
+				}
+				r.Check("flushData:aggregate-only-to-backends", bad == "", pf.Pos(), "the map the aggregator passes to its ProcessFunc goes to sendMetricsAsync only "+bad)
+			}
+		}
+		r.Check("flushData:process-callback-found", nPF == 1, fd.Pos(), fmt.Sprintf("%d Aggregator.Process calls in flushData", nPF))
 		r.Check("flushData:process-then-wait", proc != nil && waitCall != nil && instrDominates(proc, waitCall), fd.Pos(), "flushData calls the Wait returned by Process")
 		r.Check("flushData:wait-before-sendwait", waitCall != nil && sendWait != nil && instrDominates(waitCall, sendWait), fd.Pos(), "process wait precedes the send WaitGroup wait")
 	})
